@@ -24,7 +24,9 @@ New == /\ l <= Len(Trace) /\ Trace[l].e = "new"
        /\ st' = Empty
        /\ l' = l + 1
 
-Norm(o) == [o EXCEPT !.fails = Range(@), !.vetoes = Range(@), !.fll = Range(@)]
+\* sets arrive as arrays; migrations of equal version may run in any order: the model follows the observed one
+Norm(o, ev) == [o EXCEPT !.fails = Range(@), !.vetoes = Range(@), !.fll = Range(@),
+                         !.tie = [i \in 1..Len(ev.res.runs) |-> ev.res.runs[i].id]]
 
 KnownOps == {"proc", "init", "register", "use", "inject", "withdraw", "fail", "maintain", "shutdown", "madd", "migrate"}
 \* the step makes sense in the state the model is in (the generator guarantees it; a driver cannot smuggle
@@ -54,7 +56,7 @@ Match(x, ev) ==
     /\ FileOK(x.st, Range(ev.file))
 
 DoOp == /\ l <= Len(Trace) /\ Trace[l].e = "op"
-        /\ LET o == Norm(Trace[l].op) IN
+        /\ LET o == Norm(Trace[l].op, Trace[l]) IN
               /\ WellFormed(o)
               /\ \E x \in Step(st, o) :
                     /\ Match(x, Trace[l])
